@@ -338,7 +338,11 @@ func (r *Renderer) rawExpr(e N, sep string) {
 	case "nil":
 		r.emit("nil", sep)
 	case "str":
-		r.emit(QuoteStr(FromCps(e["v"])), sep)
+		if B(e, "bt") {
+			r.emit("`"+string(FromCps(e["v"]))+"`", sep)
+		} else {
+			r.emit(QuoteStr(FromCps(e["v"])), sep)
+		}
 	case "tmpl":
 		// template string: parts are either {"k":"lit","v":cps} or {"k":"e","e":expr,"src":text}
 		var sb strings.Builder
